@@ -414,10 +414,17 @@ HAND = {
     'eq_type': '#r: /x/_v & {_v: $eq_type("v=0")}\n#s: /"a"/_v & {_v: $eq_type("a")}\n',
     'sign_shared_constrained': '#pkt: /"a"/x <= #key\n#key: /"k"/x & {x: "g"}\n',
     'sign_chain': '#a: /"a"/x/y <= #b\n#b: /"b"/x <= #c | #d\n#c: /"c"/_\n#d: /"d"/x/_z & {_z: "a"|"b"}\n',
+    'redef_same_path': '#k1: /"k"/x\n#k2: /"j"/x\n#p: /"p"/x <= #k1\n#p: /"p"/x <= #k2\n#q: /"q"/x/y & {y: "a"} <= #k1\n'
+                       '#q: /"q"/x/y & {y: "b"} <= #k2\n',
     'sign_alt_defs': '#p: /"p"/x <= #k\n#k: /"k"/x\n#k: /"j"/x/y & {y: x}\n',
     'inherit_add': '#site: /"a"/s\n#u: /#site/r & {r: "b"|"c", s: "a"} <= #site\n',
     'backtrack_over_bound': '#p: /"d"/site <= #k2\n#k1: /u/site/"a"\n#k2: /u/w/u\n',
     'backtrack_repeat': '#r1: /a/a\n#r2: /a/b/a\n#r3: /a/b/c & {c: a}\n',
+    # pattern numbers with two digits (numbers are schema-global; every '_' takes a fresh one)
+    'ten_named': '#log: /n1/n2/n3/n4/n5/n6/n7/n8/n9/n10 & {n10: "a"|"b"}\n',
+    'ten_temps': '#log: /_/_/_/_/_/_/_/_/_/_z & {_z: "a"|"b"}\n',
+    'ten_mixed': ('#log: /n1/n2/n3/n4/n5/n6/n7/n8/n9/n10/_/_ & {n10: "a"|"b"}\n#e: /n2/n1/n11/n10 & {n11: "c", n10: n1}\n'
+                  '#aa: /n12/n1/_q/_/_/_/_/_/_/_/_r & {_r: "a", n12: "b"|"c"}\n'),
     'blog': ('#site: "a"/"b"\n#root: #site/#KEY\n#article: #site/"c"/cat/yr <= #author\n'
              '#author: #site/role/au/#KEY & { role: "d" } <= #admin\n#admin: #site/"e"/ad/#KEY <= #root\n#KEY: "K"/_/_\n'),
 }
@@ -444,9 +451,14 @@ NAMED = ['x', 'y', 'z']
 TEMPS = ['_t', '_u']
 
 
-def generate(rng, nrules=None):
-    """random well-formed schema text"""
+WIDE_FILL = ['#w0: /"w"/n1/n2/n3/n4', '#w1: /"w"/"w"/n5/n6/n7/n8', '#w2: /"w"/"w"/"w"/n9/_/_/_',
+             '#w3: /"w"/"w"/"w"/"w"/_/_/_/_']
+
+
+def generate(rng, nrules=None, wide=False):
+    """random well-formed schema text; ``wide``: preceded by filler rules that use up the one-digit pattern numbers"""
     n = nrules or rng.randint(2, 5)
+    NAMED = ['n1', 'n2', 'x', 'y'] if wide else globals()['NAMED']
     names = []
     for i in range(n):
         nm = '#r%d' % i
@@ -457,6 +469,7 @@ def generate(rng, nrules=None):
         names.append(nm)
     lines = []
     pats_of = {}       # rule -> named patterns available (own + inherited)
+    name_of = {}
     lens = {}
     for i in range(n):
         nm = names[i]
@@ -464,7 +477,10 @@ def generate(rng, nrules=None):
         avail = []
         own_temps = []
         total = 0
-        for _ in range(rng.randint(1, 3)):
+        same_path = nm in name_of and rng.random() < 0.5       # another definition with the very same name pattern
+        if same_path:
+            items, avail, own_temps, total = [list(v) if isinstance(v, list) else v for v in name_of[nm]]
+        for _ in range(0 if same_path else rng.randint(1, 3)):
             k = rng.random()
             refs = sorted(r for r in set(names[:i]) if r in pats_of and r != nm and r[1] != '_'
                           and lens.get(r, 9) + total <= 4)
@@ -492,6 +508,7 @@ def generate(rng, nrules=None):
             else:
                 items.append('"%s"' % rng.choice(LITS))
                 total += 1
+        name_of[nm] = (list(items), list(avail), list(own_temps), total)
         line = '%s: /%s' % (nm, '/'.join(items))
         cands = sorted(set(avail)) + sorted(set(own_temps))
         if cands and rng.random() < 0.7:
@@ -523,6 +540,8 @@ def generate(rng, nrules=None):
         if nm not in pats_of or True:
             pats_of[nm] = sorted(set(pats_of.get(nm, []) + avail))
             lens[nm] = max(lens.get(nm, 0), total)
+    if wide:
+        lines = WIDE_FILL + lines
     return '\n'.join(lines) + '\n'
 
 
@@ -536,5 +555,5 @@ def catalogue(tier, seed, repo):
     n = 20 if tier == 'quick' else 400
     for i in range(n):
         rng = random.Random(seed * 7919 + i)
-        out['gen%d' % i] = generate(rng)
+        out['gen%d' % i] = generate(rng, wide=(i % 5 == 4))
     return out
